@@ -138,6 +138,10 @@ def run(res, tier):
             res.bad("R-CLEAR-COUNTS", f"mj_clearEfc:{cnt}", ce.get("file") or "src/engine/engine_memory.h", ce.get("line"),
                     f"mj_makeConstraint resets d->{cnt} together with nefc, but mj_clearEfc (run when the arena is exhausted) "
                     f"leaves it: later stages loop over the cleared efc arrays with a stale count")
+    # the arena allocator itself never hands out memory beyond narena - pstack (shared with C19)
+    from . import c19 as _c19
+    res.rule("R-ARENA-GUARD", "mj_arenaAllocByte tests exactly the amount it consumes against narena - pstack before advancing", floor=1)
+    _c19.arena_guard(res, "R-ARENA-GUARD")
     res.extra["producers"] = sorted(producers)
     res.extra["status_functions"] = {k: v["ret_literals"] for k, v in status_funcs.items()}
     res.extra["fixpoint_rounds"] = rounds
